@@ -56,12 +56,17 @@ pub const WIN10: [Rgb; 16] = [
     (242, 242, 242),
 ];
 
-/// the crate's stated "red-mean" weighted distance, in i64
+/// The "red-mean" weighted colour distance (T. Riemersma, compuphase.com/cmetric.htm), squared and
+/// scaled by 512 so that it is exact in integers: with `rm = (r1 + r2) / 2`,
+/// `dC^2 = (2 + rm/256) dR^2 + 4 dG^2 + (2 + (255 - rm)/256) dB^2`, hence
+/// `512 dC^2 = (1024 + r1 + r2) dR^2 + 2048 dG^2 + (1534 - r1 - r2) dB^2`.
+/// Written from the published formula, not from the crate (which, until the F25 repair, weighted
+/// green with 1024 - half of what the formula it cites says).
 pub fn distance(a: Rgb, b: Rgb) -> i64 {
     let (r1, g1, b1) = (a.0 as i64, a.1 as i64, a.2 as i64);
     let (r2, g2, b2) = (b.0 as i64, b.1 as i64, b.2 as i64);
     let rs = r1 + r2;
-    (1024 + rs) * (r1 - r2) * (r1 - r2) + 1024 * (g1 - g2) * (g1 - g2) + (1534 - rs) * (b1 - b2) * (b1 - b2)
+    (1024 + rs) * (r1 - r2) * (r1 - r2) + 2048 * (g1 - g2) * (g1 - g2) + (1534 - rs) * (b1 - b2) * (b1 - b2)
 }
 
 /// (lowest index of minimal distance, minimal distance, is there a tie)
